@@ -354,8 +354,14 @@ def run_check(mod, tier, seed, replay_path=None):
         "wall_s": round(time.time() - t0, 2),
         "violations": n_viol_lines,
     }
-    os.makedirs(os.path.join(VERIF, "evidence"), exist_ok=True)
-    with open(os.path.join(VERIF, "evidence", f"{prop}.json"), "w", encoding="utf-8") as f:
+    # evidence/ describes the repository itself: a run against another tree (VERIF_REPO=<scratch copy>, as the
+    # tools that evaluate deliberate breaks do) leaves it alone and writes beside the replays instead
+    ev_dir = os.path.join(VERIF, "evidence")
+    if os.path.realpath(REPO) != os.path.realpath("/repo"):
+        ev_dir = os.path.join(VERIF, "replays", "evidence-other-tree")
+        ev["repository"] = REPO
+    os.makedirs(ev_dir, exist_ok=True)
+    with open(os.path.join(ev_dir, f"{prop}.json"), "w", encoding="utf-8") as f:
         json.dump(ev, f, indent=1, default=repr)
         f.write("\n")
 
